@@ -204,6 +204,59 @@ def gen_fuzz(ctx, seeds):
 
 
 # ------------------------------------------------------------------------------------ part C: capacities
+# ------------------------------------------------------------------------------------ part B, wave 5 (TEST SUPPORT)
+MK5_KINDS = ["richcert", "richca", "richnouri", "iapcert", "richname", "richnamedc", "richcrl", "richcrlplain", "kai", "cmssd", "cmssev",
+             "tlsext_svc", "tlsext_svs", "tlsext_ksc", "tlsext_kss", "tlsext_sigc", "tlsext_ca", "tlsext_all", "uri", "httpresp", "seqint"]
+# fz5 kind: seeds; a name without prefix is a `mk5` seed, "mk:<kind>" is one of the existing `mk` seeds
+FUZZ5_KINDS = {
+    "cert": ["richcert", "richca", "richnouri", "iapcert", "mk:cert", "mk:cacert", "mk:certnoext"],
+    "certs": ["richcert", "mk:cert"],
+    "crl": ["richcrl", "richcrlplain", "mk:crl"],
+    "name": ["richname", "richnamedc"],
+    "cms": ["kai", "cmssd", "cmssev", "mk:cmsenv", "mk:cmssignenv", "mk:cmssigned", "mk:cmsenc", "mk:cmsdata"],
+    "sm9smsk": ["mk:sm9smsk"], "sm9smpk": ["mk:sm9smpk"], "sm9sk": ["mk:sm9sk"], "sm9emsk": ["mk:sm9emsk"], "sm9empk": ["mk:sm9empk"], "sm9ek": ["mk:sm9ek"],
+    "tlsrec": ["mk:tlsch", "mk:tlssh", "mk:tlscert", "mk:tlsske", "mk:tlscr", "mk:tlsckepke", "mk:tlsckeecdhe", "mk:tlscv", "mk:tlsfin", "mk:tlsshd", "mk:tlsalert", "mk:tlsccs", "mk:tlsapp"],
+    "tlsext": ["tlsext_svc", "tlsext_svs", "tlsext_ksc", "tlsext_kss", "tlsext_sigc", "tlsext_ca", "tlsext_all"],
+    "http": ["uri", "httpresp"],
+    "asn1": ["seqint", "richname"],
+}
+# seeds whose VALID form already aborts the process (library defect, see findings): every mutant that keeps the shape dies the same
+# way and core.run_lines gives up after 200 restarts per shard, so their mutation budget is kept small until the library is fixed
+FUZZ5_SMALL_BUDGET = {"iapcert": 40}
+
+
+def gen_fuzz5(ctx, seeds, seeds5):
+    """(line, cell) like gen_fuzz; seeds = the `mk` seeds, seeds5 = the `mk5` seeds"""
+    r = ctx.rng
+    K = 12 if ctx.tier == "thorough" else 1
+    cases = []
+    add = lambda line, cell: cases.append((line, cell))
+    for kind, mks in FUZZ5_KINDS.items():
+        for mk in mks:
+            s = seeds.get(mk[3:]) if mk.startswith("mk:") else seeds5.get(mk)
+            name = mk[3:] if mk.startswith("mk:") else mk
+            if not s:
+                continue
+            add("fz5 %s %s" % (kind, hexs(s)), "fz5:%s:%s:valid" % (kind, name))
+            budget = FUZZ5_SMALL_BUDGET.get(name, (48 if len(s) < 700 else 72) * K)
+            for mkind, m in structured_mutations(r, s, budget):
+                if kind == "tlsrec":
+                    m = fix_record(m, r.chance(2, 3))
+                add("fz5 %s %s" % (kind, hexs(m)), "fz5:%s:%s:%s" % (kind, name, mkind))
+            if kind == "http":              # text: byte noise is the interesting class (sscanf / strstr / atoi)
+                for _ in range(40 * K):
+                    add("fz5 http %s" % hexs(mutate(r, s, r.range(1, 4))), "fz5:http:%s:noise" % name)
+    # hand-made http inputs: field widths of http_parse_uri (host[128], path[256]) and Content-Length values
+    for host in (1, 126, 127, 128, 129, 300):
+        for path in (0, 1, 253, 254, 255, 256, 400):
+            add("fz5 http %s" % hexs(b"http://" + b"h" * host + b":8080/" + b"p" * path), "fz5:http:uri-widths")
+            add("fz5 http %s" % hexs(b"http://" + b"h" * host + b"/" + b"p" * path), "fz5:http:uri-widths")
+    for cl in (b"0", b"-1", b"1", b"12", b"13", b"2147483647", b"2147483648", b"4294967297", b"99999999999999999999", b"", b"x"):
+        add("fz5 http %s" % hexs(b"HTTP/1.1 200 OK\r\nContent-Length: " + cl + b"\r\n\r\nhello world!"), "fz5:http:content-length")
+    return cases
+
+
+
 def gen_capacity(ctx):
     """(line, cell, expected) — expected: exact result string, or a predicate on the result"""
     r = ctx.rng
@@ -239,6 +292,11 @@ def gen_capacity(ctx):
         for delta in (-200, -2, -1, 0, 1, 100):
             add("cap pem %s %d" % (kind, delta), "cap:pem:%s:%s" % (kind, "fits" if delta >= 0 else "exceeds"),
                 (lambda o, d=delta: (re.fullmatch(r"need=(\d+) r=1 len=\1", o) is not None) if d >= 0 else (re.fullmatch(r"need=\d+ r=-1", o) is not None)))
+    # x509_crl_new_from_cert: CRLDistributionPoints without any URI (empty point, reasons/issuer only, nameRelativeToCRLIssuer,
+    # fullName without a URI, several such points): 0 and *crl = NULL whatever the stack held (defect:dp_uri); no URI, so no network
+    for dp in ("3000", "3004030201fe", "300ea00ca10a300806035504030c0178", "300ca00aa0088206646e732e6578", "30003000", "3000300ea00ca10a300806035504030c0178",
+               "300ea00ca10a300806035504030c01783000", "30083006" + "3004" + "8202" + "6161"):      # the argument is the list of DistributionPoint TLVs
+        add("cap crlfromcert %s" % dp, "cap:crlfromcert:no-uri", "r=0 crl=NULL")
     for n in (1, 2, 3, 8):
         for delta in (-97, -3, -2, -1, 0, 1):
             add("cap tlsauth %d %d" % (n, delta), "cap:tlsauth:%s" % ("fits" if delta >= 0 else "exceeds"),
@@ -266,6 +324,21 @@ def gen_capacity(ctx):
 
 # ------------------------------------------------------------------------------------ part D: failure-then-cleanup / retry
 BAD_BUNDLES = ["missing", "empty", "garbage", "binary", "trunc2", "cutline", "garb2", "noend"]
+
+
+# ------------------------------------------------------------------------------------ part C, wave 5
+NAMES5_EXPECTED = "OK 544"     # measured once on /repo HEAD (ASan build); the number of non-NULL table entries over ids -2..300 + 23 extra ids.
+                               # It MUST be stable from run to run (no entropy, no clock involved); it changes only when the library's name tables change -
+                               # then re-measure with `echo names5 | <harness>` and update this constant after reviewing the table change.
+
+
+def gen_capacity5(ctx):
+    """(line, cell, expected) like gen_capacity"""
+    cases = [("names5", "names5:tables", NAMES5_EXPECTED)]
+    for seed in (1, 2, 0xabcdef) + ((7, 8, 9, 10) if ctx.tier == "thorough" else ()):      # ~1.5 s each under ASan (8 PBKDF2 runs of 65536 iterations)
+        cases.append(("sm9io5 %d" % seed, "sm9io5:generate-extract-pem-roundtrip-print", "OK"))
+    return cases
+
 
 
 def gen_sequences(ctx):
@@ -352,12 +425,12 @@ def run(ctx):
         core.harness_build_failed(ctx, log if der is None else log2)
         return finish(ctx, 0, 0, 0)
     # ---- part A
-    from vlib import codec_x509
-    casesA = gen_modelled(ctx) + codec_x509.gen_x509(ctx, scale=2)
+    from vlib import codec_x509, codec_crl, codec_cms
+    casesA = gen_modelled(ctx) + codec_x509.gen_x509(ctx, scale=2) + codec_crl.gen_crl(ctx, scale=1) + codec_cms.gen_cms(ctx, scale=1)
     linesA = [c[0] for c in casesA]
     mout, _ = core.run_lines(model, linesA)
     iout, ierr = core.run_lines(der, linesA)
-    nbad = compare(ctx, casesA, iout, mout, "asan", ierr, out_of_scope=("bit_empty", "oid_first", "oid_lead", "utf8", "digest_ret", "multiple"))
+    nbad = compare(ctx, casesA, iout, mout, "asan", ierr, out_of_scope=("bit_empty", "oid_first", "oid_lead", "utf8", "digest_ret", "encdata_enc", "time_neg", "multiple"))
     ctx.notes.append("modelled part: %d cases, %d disagreements" % (len(casesA), nbad))
     # ---- part B
     mk = sorted({m for ms in FUZZ_KINDS.values() for m in ms} | {m for ms in DET_KINDS.values() for m in ms} | {"sm9p8smsk", "sm9p8sk", "sm9p8emsk", "sm9p8ek"})
@@ -368,7 +441,16 @@ def run(ctx):
             seeds[m] = bytes.fromhex(o)
         else:
             ctx.notes.append("seed %s could not be built: %s" % (m, (o or "")[:60]))
-    casesB = gen_fuzz(ctx, seeds)
+    s5out, _ = core.run_lines(fz, ["mk5 " + m for m in MK5_KINDS], shards=1)
+    seeds5 = {}
+    for m, o in zip(MK5_KINDS, s5out):
+        if re.fullmatch(r"[0-9a-f]+", o or ""):
+            seeds5[m] = bytes.fromhex(o)
+        else:
+            # `ERR <step>`: a builder of the library refused / changed behaviour (the step names the call) - not silent
+            ctx.violation("fuzz5:seed:" + m, "wave-5 seed `%s` could not be built: %s" % (m, (o or "")[:80]),
+                          {"kind": "failing-input", "op": "mk5 " + m, "impl": o, "expected": "hex", "harness": "props/C06/harness.c"}, found_input=True)
+    casesB = gen_fuzz(ctx, seeds) + gen_fuzz5(ctx, seeds, seeds5)
     linesB = [c[0] for c in casesB]
     fout, ferr = core.run_lines(fz, linesB, timeout=600)
     located = {}
@@ -390,19 +472,28 @@ def run(ctx):
             key = "fuzz:" + where
             ctx.violation(key, "fuzz-only surface: `%s` aborts the process: %s (op `%s`)" % (kind, where, line[:140]),
                           {"kind": "failing-input", "op": line, "impl": o, "expected": "no sanitizer report / crash / hang", "harness": "props/C06/harness.c", "stderr": err}, found_input=True)
+        elif "STDOUT-LEAK" in o or re.search(r"-7[78]\b", o):
+            what = "a printer wrote to stdout instead of the FILE it was given" if "STDOUT-LEAK" in o else "an output length / pointer left the buffer the caller provided (-77/-78 marker)"
+            ctx.violation("fuzz5:" + ("stdout-leak" if "STDOUT-LEAK" in o else "out-of-range-output"), "%s (op `%s`): %s" % (what, line[:120], o[:80]),
+                          {"kind": "failing-input", "op": line, "impl": o, "expected": "nothing on stdout; lengths within capacity", "harness": "props/C06/harness.c"}, found_input=True)
         elif "OVER-CAPACITY" in o:
             ctx.violation("fuzz:pem-capacity", "pem_read returned more bytes than the declared maxlen (op `%s`): %s" % (line[:120], o),
                           {"kind": "failing-input", "op": line, "impl": o, "expected": "len <= maxlen", "harness": "props/C06/harness.c"}, found_input=True)
+        elif not re.fullmatch(r"r=-?\d+(,-?\d+)*( len=\d+)?", o):
+            # every printer is handed a FILE* on /dev/null: anything else on the harness's stdout was written by a printer
+            # that ignored its stream (cf. the fixes 624ff34 tls_secrets_print, ac80d12 gf128_print)
+            ctx.violation("fuzz:stdout-pollution:" + kind, "fuzz-only surface: `%s` wrote to stdout instead of the stream it was given: %s (op `%s`)" % (kind, o[:120], line[:140]),
+                          {"kind": "failing-input", "op": line, "impl": o[:2000], "expected": "r=<status list> only", "harness": "props/C06/harness.c"}, found_input=True)
         else:
             ctx.cell(cell + (":ok" if "r=1" in o else ":err"))
     ctx.notes.append("fuzz-only part: %d cases, %d faults" % (len(casesB), nfault))
     # ---- part C: declared / implied capacities
-    casesC = gen_capacity(ctx)
+    casesC = gen_capacity(ctx) + gen_capacity5(ctx)
     cout, _ = core.run_lines(fz, [c[0] for c in casesC], timeout=600)
     nbadc = 0
     for (line, cell, exp), o in zip(casesC, cout):
         ctx.cov["evaluations"] += 1
-        ctx.count("cap:" + line.split(" ")[1])
+        ctx.count("cap:" + (line.split(" ") + ["-"])[1])
         ok = (o == exp) if isinstance(exp, str) else bool(exp(o))
         if ok and not o.startswith("FAULT"):
             ctx.cell(cell + (":ok" if "r=1" in o else ":refused"))
@@ -503,24 +594,35 @@ def finish(ctx, na, nb, nc=0, nd=0, ne=0):
     modelled = ["lenD", "typD", "netD", "anytD", "anyD", "boolD", "intD", "i32D", "bstrD", "boctD", "bitsD", "nullD", "oidD", "oidderD",
                 "seqintD", "strD/isstr utf8|prn|ia5", "timeD", "sigD", "hexD", "b64blkD", "b64D",
                 "pkalgD", "encalgD", "kdfpD", "p8eD", "ctD", "pubiD", "privD", "p8D", "pemR"]
+    from vlib import codec_x509, codec_crl, codec_cms          # wave 5: X.509 ext/name/cert, CRL/request, CMS decoders (Codec/X509.v Crl.v Cms.v)
+    import re as _re
+    drv = open(os.path.join(core.ROOT, "props", "C14", "driver.ml")).read()
+    for lst in ("x509_ops", "crl_ops", "cms_ops"):
+        m = _re.search(r"let %s = \[(.*?)\]" % lst, drv, _re.S)
+        modelled += _re.findall(r'"(\w+)"', m.group(1)) if m else []
     fuzz_only = ["x509_cert_from_der/print/get_details/check/verify_by_ca_cert", "x509_certs_get_count/print/verify", "x509_crl_from_der/print/check/find_revoked",
                  "x509_req_from_der/print/verify", "cms_print/content_info_from_der/verify/decrypt", "sm2_private_key_info_from_der/print, pkcs8_enced_private_key_info_from_der/print, decrypt_from_der",
                  "sm2_private_key_from_der/print", "sm2_public_key_info_from_der/print", "sm2_ciphertext_from_der/print, sm2_decrypt", "sm2_signature_print, sm2_verify",
                  "sm2_z256_point_from_octets", "sm9_signature_from_der/print", "sm9_ciphertext_from_der/print", "sm9 *_key_info_decrypt_from_der (4 loaders x 4 kinds of encrypted key)",
-                 "tls_record_print, tlcp_record_print, tls13_record_print, tls_record_get_handshake_* (12 getters), tls_process_*_hello_exts", "pem_read", "asn1_tag_name"]
+                 "tls_record_print, tlcp_record_print, tls13_record_print, tls_record_get_handshake_* (12 getters), tls_process_*_hello_exts", "pem_read", "asn1_tag_name",
+                 "wave 5: x509_exts_print / x509_exts_check (7 cert types) / per-extension decoders, x509_name_* getters / equ / names_print, x509_certs_get_last / verify_tlcp / from_pem_by_subject, "
+                 "x509_crl_to_der / verify_by_ca_cert / revoked entries, cms_deenvelop / deenvelop_and_verify / signed_and_enveloped decipher / key agreement info, sm9 *_print, "
+                 "tls13 extension printers and processors, tls_extensions_print / encrypted_record_print / secrets_print, http_parse_uri / http_parse_response, asn1 helpers"]
     ctx.assumptions = [
         "Part A: decoder models take the bytes from the C pointer to the end of the buffer and identify *inlen with that length; Fault = read/write outside; the theorems of Props/Properties_C06.v are about the Fixed model",
         "Part B is fuzzing (mutation of library-issued objects, oracle = no sanitizer report / crash / hang) and is test support, not proof; it says nothing about inputs it did not try",
+        "in the X.509 / CRL / CMS models a loop that does not end within its fuel (the length of its data) is Fault, so never-Fault includes termination; the keyed CMS levels (decrypt / verify) are proved with SM4-CBC, SM2 and SM3 as parameters and reach the library only through the fuzz and capacity parts",
         "uninitialised reads are visible only as UBSan/ASan reports or differing outputs (no MSan); live TLS peers and http.c are exercised by other properties' harnesses, not here",
     ]
     return ctx.finish(level="proof",
                       rule="part A: per modelled decoder, valid objects + truncation at (sampled) every byte + edits of every TLV length octet / tag + insertions + byte noise + random streams + element counts at capacity-1/capacity/capacity+1; a cell = (op, mutation class, ok|ERR|ABSENT|FAULT) on which implementation and Fixed model agreed.  part B: per fuzz kind and seed object the same mutation classes (TLS records re-framed as tls_record_recv guarantees); a cell = (kind, seed, mutation class, ok|err) that ran without a fault",
-                      trusted=core.TRUSTED_COMMON + ["Coq files: Codec/Der.v Hex.v Base64.v Time.v Pkcs.v Pem.v (models), Codec/DerProofs.v SafetyProofs.v HexProofs.v Base64Proofs.v Base64Safety.v TimeProofs.v PkcsProofs.v PkcsOpen.v PemProofs.v, Props/Properties_C06.v",
-                                                     "props/C14/harness.c + props/C14/driver.ml (modelled ops), props/C06/harness.c (fuzz-only ops), vlib/codec_common.py"],
+                      trusted=core.TRUSTED_COMMON + ["Coq files: Codec/Der.v Hex.v Base64.v Time.v Pkcs.v Pem.v OidTables.v (generated from the library sources by vlib/oid_tables.py) X509.v Crl.v Cms.v Sm9Key.v (models), Codec/DerProofs.v SafetyProofs.v HexProofs.v Base64Proofs.v Base64Safety.v TimeProofs.v PkcsProofs.v PkcsOpen.v PemProofs.v X509Proofs.v CrlProofs.v CmsProofs.v Sm9KeyProofs.v, Props/Properties_C06.v",
+                                                     "props/C14/harness.c + harness_x509.inc harness_crl.inc harness_cms.inc harness_sm9.inc + props/C14/driver.ml (modelled ops), props/C06/harness.c (fuzz-only ops), vlib/codec_common.py codec_x509.py codec_crl.py codec_cms.py oid_tables.py"],
                       extra={"modelled_ops": modelled, "fuzz_only_ops": fuzz_only, "modelled_cases": na, "fuzz_only_cases": nb, "capacity_cases": nc, "sequence_cases": nd, "determined_cases": ne,
                              "determined_ops": ["x509_cert_get_details + x509_ext_from_der + basic_constraints / authority_key_identifier", "x509_crl_get_details", "x509_req_get_details", "cms_content_info / signed_data / signer_info / enveloped_data / recipient_info / enced_content_info _from_der", "sm9 sign/enc master key, master public key, user key _from_der", "sm2_public_key_info_from_der, sm2_private_key_from_der"],
                              "sequence_ops": ["x509_cert_new_from_file / x509_certs_new_from_file / x509_req_new_from_file (fail, owner cleanup, retry)", "tls_ctx_set_ca_certificates / tls_ctx_set_certificate_and_key / tls_ctx_set_tlcp_server_certificate_and_keys x {cleanup, retry, tls_init} + double tls_ctx_cleanup"],
                              "capacity_ops": ["cms_recipient_info_decrypt_from_der(maxlen)", "cms_enveloped_data_decrypt_from_der (key[32])", "sm2_decrypt (exact plaintext buffer)",
                                               "sm2_decrypt_update / sm2_encrypt_update (sums against 366 / 255)", "x509_cert_from_pem / x509_certs_from_pem / x509_req_from_pem / cms_from_pem (maxlen)",
-                                              "tls_authorities_from_certs(maxlen)", "tls_process_client_hello_exts(maxlen)", "cms_digest_algors_from_der(max)", "x509_ext_key_usage_from_der(max_cnt)", "tls_record_get_handshake_certificate / tls13_process_certificate_list (TLS_MAX_CERTIFICATES_SIZE)"],
+                                              "tls_authorities_from_certs(maxlen)", "tls_process_client_hello_exts(maxlen)", "cms_digest_algors_from_der(max)", "x509_ext_key_usage_from_der(max_cnt)", "tls_record_get_handshake_certificate / tls13_process_certificate_list (TLS_MAX_CERTIFICATES_SIZE)",
+                                              "x509_crl_new_from_cert on certificates without a CRL URI (0 / NULL, independent of the stack)", "names5 (36 name tables and their inverses)", "sm9io5 (SM9 generate / extract / PEM round trip / print)"],
                              "fuzz_only_note": "fuzz_only_ops are test support (mutation fuzzing under ASan/UBSan), not covered by any theorem"})
